@@ -21,6 +21,7 @@ type Event struct {
 	Seq  int                    `json:"seq"`
 	Site string                 `json:"site"`
 	Conn int                    `json:"conn"`
+	T    int64                  `json:"t"` // microseconds since the runtime was created
 	KV   map[string]interface{} `json:"kv,omitempty"`
 }
 
@@ -58,6 +59,7 @@ type Runtime struct {
 	counts  map[string]int
 	gates   []*Gate
 	seed    uint64
+	start   time.Time
 	// DelayMode: 0 none, 1 yields, 2 yields and micro-sleeps
 	DelayMode int32
 	// NoTrace: do not take the trace mutex at all (race-detector runs: the mutex would add
@@ -69,7 +71,7 @@ type Runtime struct {
 var current atomic.Pointer[Runtime]
 
 func New(seed int64) *Runtime {
-	return &Runtime{connIDs: map[uintptr]int{}, ptrIDs: map[uintptr]int{}, counts: map[string]int{}, seed: uint64(seed)}
+	return &Runtime{connIDs: map[uintptr]int{}, ptrIDs: map[uintptr]int{}, counts: map[string]int{}, seed: uint64(seed), start: time.Now()}
 }
 
 // Install makes rt the receiver of every hook call.  VerifHook itself is set once.
@@ -166,7 +168,7 @@ func (r *Runtime) hook(site string, conn interface{}, kv ...interface{}) {
 			}
 			cid = id
 		}
-		ev := Event{Seq: len(r.events), Site: site, Conn: cid}
+		ev := Event{Seq: len(r.events), Site: site, Conn: cid, T: time.Since(r.start).Microseconds()}
 		if len(kv) > 0 {
 			ev.KV = map[string]interface{}{}
 			for i := 0; i+1 < len(kv); i += 2 {
@@ -223,7 +225,7 @@ func (r *Runtime) hook(site string, conn interface{}, kv ...interface{}) {
 // Log adds a harness-side observable event to the same total order.
 func (r *Runtime) Log(site string, kv ...interface{}) {
 	r.mu.Lock()
-	ev := Event{Seq: len(r.events), Site: site}
+	ev := Event{Seq: len(r.events), Site: site, T: time.Since(r.start).Microseconds()}
 	if len(kv) > 0 {
 		ev.KV = map[string]interface{}{}
 		for i := 0; i+1 < len(kv); i += 2 {
